@@ -102,11 +102,16 @@ PROPS = {
                    'both directions under modifications, parameter changes, solves and destruction of the other object (ASan watches dangling '
                    'pointers); (d) state leaking between solves: an object that solved, was modified and had its basis cleared must reach the '
                    'verdict and optimal value of a new object given the same LP (judged on certified, tolerance-robust LPs). Sampling of inputs x configurations x history points.',
-        level_note='floating-point mode; exact-mode copies are exercised in the C03/C07 harness; cross-process comparison not built',
+        level_note='copies with a rational LP present are exercised by the exact-copies stages (h_exact: copy / assignment inside the C07 real+rational '
+                   'modification histories, equality with the exact mirror, independence under rational changes, solves and destruction); '
+                   'cross-process comparison not built',
         technique='runtime monitoring: bitwise snapshot comparison of twin/copy objects over seeded API histories under ASan+UBSan, plus valgrind memcheck (uninitialised state carried by copies)',
-        stages=lambda t: two_flavour('h_solve', 1200, 5000, 8000, 32000)(t) + [memcheck_stage('h_solve', 96, 640)(t)],
+        stages=lambda t: two_flavour('h_solve', 1200, 5000, 8000, 32000)(t) + [memcheck_stage('h_solve', 96, 640)(t),
+                          dict(name='exact-copies-asan', harness='h_exact', flavour='asan', cases=300 if t == 'quick' else 1500),
+                          dict(name='exact-copies-opt', harness='h_exact', flavour='opt', cases=1200 if t == 'quick' else 6000)],
         minima=lambda t: {'memcheck.cases_completed': 90, 'c17.twin_solves': 200, 'c17.resolve_after_clearBasis': 150, 'c17.copy_resolve_compared': 150,
-                          'c17.independence_next_solve_compared': 200, 'c17.history.judged': 100},
+                          'c17.independence_next_solve_compared': 200, 'c17.history.judged': 100,
+                          'c07.op.copy(ctor)': 150, 'c07.op.copy(assign)': 150},
         eval_counter='cases', distinct_set='nontrivial',
         rule='case k -> (LP family, seeded LP, configuration, scenario: twins / re-solve / copy at point p by ctor or assignment, victim and '
              'hammer sequence); distinct = hash(LP signature x configuration x scenario seed)',
